@@ -146,13 +146,35 @@ Proof.
   unfold join_path. destruct cwd; [destruct s; [congruence | apply clean_nonnil] | apply clean_nonnil].
 Qed.
 
+Lemma Root_unique : forall gomod cur a b, Root gomod cur a -> Root gomod cur b -> a = b.
+Proof.
+  intros gomod cur a b H. revert b. induction H; intros b Hb; inversion Hb; subst; try congruence.
+  apply IHRoot. assumption.
+Qed.
+
+Lemma find_root_Root : forall gomod fuel cur stats stats' r,
+  find_root fuel gomod cur stats = (stats', Some r) -> Root gomod cur r.
+Proof.
+  intros gomod. induction fuel as [|f IH]; intros cur stats stats' r H; simpl in H; [discriminate|].
+  destruct (gomod cur) eqn:Eg.
+  - inversion H; subst. apply root_here. assumption.
+  - destruct (str_eqb cur [47]) eqn:Es.
+    + inversion H; subst. apply root_none; assumption.
+    + apply root_up; auto. eapply IH. exact H.
+Qed.
+
 (* ---------- confinement of the repaired model, for every byte string ---------- *)
 Definition confined (gomod : str -> bool) (dot : bool) (source_dir p : str) : Prop :=
   if dot then beneath source_dir p
   else exists root, gomod root = true /\ root <> [] /\ beneath root p.
 
-Theorem resolve_off_confined : forall cwd gomod dot name sd stats p,
-  resolve quirks_off cwd gomod dot name sd = (stats, Read p) -> confined gomod dot sd p.
+(* the same with the root identified: it is the specification's module root of the importing directory *)
+Definition confined_at (cwd : str) (gomod : str -> bool) (dot : bool) (source_dir p : str) : Prop :=
+  if dot then beneath source_dir p
+  else exists root, Root gomod (abs_path cwd source_dir) (Some root) /\ gomod root = true /\ root <> [] /\ beneath root p.
+
+Theorem resolve_off_confined_at : forall cwd gomod dot name sd stats p,
+  resolve quirks_off cwd gomod dot name sd = (stats, Read p) -> confined_at cwd gomod dot sd p.
 Proof.
   intros cwd gomod dot name sd stats p. unfold resolve.
   cbn [q_import_trim_after_join q_import_dir_as_file quirks_off].
@@ -169,7 +191,7 @@ Proof.
     assert (Hsd' : sd <> []) by (destruct sd; [discriminate | discriminate]).
     destruct (is_nilb (trim_slash (clean n1)) || str_eqb (trim_slash (clean n1)) sDot) eqn:Hfp; cbn [negb andb]; [discriminate|].
     unfold import_local. cbn [q_import_trim_after_join quirks_off].
-    intro H. injection H as Hst Hp'. rewrite <- Hp'. clear Hp' Hst. unfold confined.
+    intro H. injection H as Hst Hp'. rewrite <- Hp'. clear Hp' Hst. unfold confined_at.
     destruct (rel_clean_shape n1) as [E | [ns [Hn [Hf E]]]]; [assumption | assumption | assumption | |].
     + rewrite E in Hfp. vm_compute in Hfp. discriminate.
     + rewrite E.
@@ -198,11 +220,19 @@ Proof.
       destruct (join_head st0 Hn Hok) as [c [tl [Ej Hc]]].
       assert (Hnp : has_prefix [47] (join st0) = false).
       { rewrite Ej. unfold has_prefix. unfold is_sl in Hc. rewrite Z.eqb_sym. rewrite Hc. reflexivity. }
-      rewrite Hnp. intro H. injection H as Hst Hp'. rewrite <- Hp'. clear Hp' Hst. unfold confined.
-      exists root. split; [assumption|]. split; [assumption|].
+      rewrite Hnp. intro H. injection H as Hst Hp'. rewrite <- Hp'. clear Hp' Hst. unfold confined_at.
+      exists root. split; [eapply find_root_Root; exact Efr|]. split; [assumption|]. split; [assumption|].
       destruct (file_name_suffix (root ++ 47 :: strip_dotdotslash (join st0))) as [e [Ee He]]. rewrite Ee.
       apply root_final; [assumption | | assumption].
       apply strip_keeps_ok. apply run_join_normals; assumption.
+Qed.
+
+Theorem resolve_off_confined : forall cwd gomod dot name sd stats p,
+  resolve quirks_off cwd gomod dot name sd = (stats, Read p) -> confined gomod dot sd p.
+Proof.
+  intros cwd gomod dot name sd stats p H. pose proof (resolve_off_confined_at _ _ _ _ _ _ _ H) as Hc.
+  unfold confined_at, confined in *. destruct dot; [assumption|].
+  destruct Hc as [root [_ [Hg [Hn Hb]]]]. exists root. auto.
 Qed.
 
 (* the property theorem in the quirk scheme: for every quirk setting, on every
@@ -315,3 +345,51 @@ Example resolve_nonvacuous :
   snd (resolve quirks_off [47; 99] (gomod_at [47; 114]) false [47; 97; 47; 46; 46; 47; 46; 46; 47; 121] [47; 114; 47; 115])
     = Read [47; 114; 47; 121; 46; 97; 114; 114; 97; 105].
 Proof. vm_compute. repeat split. Qed.
+
+(* ---------- module root: nearest go.mod, independent of the root cache ---------- *)
+Lemma walk_root_Root : forall gomod fuel cur passed r passed',
+  walk_root fuel gomod cur passed = Some (r, passed') ->
+  Root gomod cur r /\ exists more, passed' = passed ++ more /\ forall p, In p more -> Root gomod p r.
+Proof.
+  intros gomod. induction fuel as [|f IH]; intros cur passed r passed' H; simpl in H; [discriminate|].
+  destruct (gomod cur) eqn:Eg.
+  - inversion H; subst. assert (Hr : Root gomod cur (Some cur)) by (apply root_here; assumption).
+    split; [assumption|]. exists [cur]. split; [reflexivity|]. intros p [Hp | []]. subst. assumption.
+  - destruct (str_eqb cur [47]) eqn:Es.
+    + inversion H; subst. assert (Hr : Root gomod cur None) by (apply root_none; assumption).
+      split; [assumption|]. exists [cur]. split; [reflexivity|]. intros p [Hp | []]. subst. assumption.
+    + destruct (IH _ _ _ _ H) as [Hr [more [E Hm]]].
+      assert (Hc : Root gomod cur r) by (apply root_up; assumption).
+      split; [assumption|]. exists (cur :: more). split.
+      * rewrite E. rewrite <- app_assoc. reflexivity.
+      * intros p [Hp | Hp]; [subst; assumption | apply Hm; assumption].
+Qed.
+
+Lemma cache_load_in : forall c d r, cache_load c d = Some r -> In (d, r) c.
+Proof.
+  induction c as [|[d' r'] t IH]; intros d r H; simpl in H; [discriminate|].
+  destruct (str_eqb d d') eqn:E.
+  - apply str_eqb_eq in E. inversion H; subst. left. reflexivity.
+  - right. apply IH. assumption.
+Qed.
+
+(* with a sound cache the cached search answers exactly the specification's
+   root, whatever was resolved before, and leaves the cache sound *)
+Theorem find_root_cached_transparent : forall gomod fuel c cur r c',
+  cache_sound gomod c ->
+  find_root_cached fuel gomod c cur = Some (r, c') ->
+  Root gomod cur r /\ cache_sound gomod c'.
+Proof.
+  intros gomod fuel c cur r c' Hs H. unfold find_root_cached in H.
+  destruct (cache_load c cur) as [r0|] eqn:El.
+  - inversion H; subst. split; [|assumption]. apply Hs. apply cache_load_in. assumption.
+  - destruct (walk_root fuel gomod cur []) as [[[root|] passed]|] eqn:Ew; [| |discriminate].
+    + inversion H; subst. destruct (walk_root_Root _ _ _ _ _ _ Ew) as [Hr [more [E Hm]]]. simpl in E. subst passed.
+      split; [assumption|]. intros d r0 Hin. apply in_app_or in Hin. destruct Hin as [Hin | Hin]; [|apply Hs; assumption].
+      apply in_map_iff in Hin. destruct Hin as [p [Ep Hp]]. inversion Ep; subst. apply Hm. assumption.
+    + inversion H; subst. destruct (walk_root_Root _ _ _ _ _ _ Ew) as [Hr _]. split; assumption.
+Qed.
+
+Lemma cache_sound_nil : forall gomod, cache_sound gomod [].
+Proof. intros gomod d r []. Qed.
+
